@@ -40,6 +40,16 @@ Section VMScalar.
     rewrite E. reflexivity.
   Qed.
 
+  Lemma step_loadglobal f ip st v :
+    nth_error instr ip = Some 23%N -> below + length st < MAXSTACK ->
+    nth (opnd ip 1) (globals s) VGoNil = v -> v <> VGoNil ->
+    run (S f) ip st = run f (ip + 2) (v :: st).
+  Proof.
+    intros H Hb Hv Hn. cbn [exec]. rewrite H, Hv.
+    assert (E : (MAXSTACK <=? below + length st) = false) by (apply Nat.leb_gt; exact Hb).
+    destruct v; try (rewrite E; reflexivity). contradiction.
+  Qed.
+
   Lemma step_neg f ip st v :
     nth_error instr ip = Some 42%N -> below + length st < MAXSTACK ->
     run (S f) ip (v :: st) =
@@ -174,21 +184,32 @@ Section VMScalar.
   Lemma need_pos e : 1 <= F.need e.
   Proof. induction e; cbn [F.need]; lia. Qed.
 
+  (* the global slots 0 .. hold the current values of the declared variables *)
+  Definition globals_ok (rho : list F.sval) : Prop :=
+    forall i v, nth_error rho i = Some v -> nth i (globals s) VGoNil = inj v.
+
+  Lemma inj_not_gonil v : inj v <> VGoNil.
+  Proof. destruct v; discriminate. Qed.
+
+  Variable rho : list F.sval.
+  Hypothesis Hglob : globals_ok rho.
+
   Definition outcome_of (e : F.sexp) (f : nat) (ip : nat) (st : list value) : res * list value :=
-    match F.sev e with
+    match F.sev rho e with
     | inl v => run f ip (inj v :: st)
     | inr x => (RErr (cls x) s, defers)
     end.
 
   Theorem vm_scalar : forall e base pre post st,
+    F.wf (length rho) e = true ->
     instr = pre ++ fst (F.cexp base e) ++ post ->
     (forall i k, nth_error (snd (F.cexp base e)) i = Some k -> nth (base + i) (code_consts c) (KInt 0) = k) ->
     below + length st + F.need e <= MAXSTACK ->
     exists k, forall f,
       run (k + f) (length pre) st = outcome_of e f (length pre + length (fst (F.cexp base e))) st.
   Proof.
-    induction e as [z|b| |a IHa|a IHa|o a IHa b IHb|a IHa b IHb|a IHa b IHb|cnd IHc t IHt el IHe];
-      intros base pre post st Hi Hk Hn; unfold outcome_of; cbn [F.sev].
+    induction e as [z|b| |i|a IHa|a IHa|o a IHa b IHb|a IHa b IHb|a IHa b IHb|cnd IHc t IHt el IHe];
+      intros base pre post st Hwf Hi Hk Hn; unfold outcome_of; cbn [F.sev]; cbn [F.wf] in Hwf.
     - (* SInt *)
       cbn [F.cexp fst snd] in *. exists 1. intros f. cbn [Nat.add].
       rewrite step_const; [|rewrite Hi; apply at0|cbn [F.need] in Hn; lia].
@@ -202,16 +223,22 @@ Section VMScalar.
       cbn [F.cexp fst snd] in *. exists 1. intros f. cbn [Nat.add length].
       rewrite (step_push f (length pre) st opNil VNil);
         [rewrite Nat.add_1_r; reflexivity|rewrite Hi; apply at0|auto|cbn [F.need] in Hn; lia].
+    - (* SVar *)
+      apply Nat.ltb_lt in Hwf. destruct (nth_error rho i) as [v|] eqn:Ei; [|apply nth_error_None in Ei; lia].
+      cbn [F.cexp fst snd] in *. exists 1. intros f. cbn [Nat.add].
+      assert (Hop : nth (length pre + 1) instr 0%N = N.of_nat i) by (rewrite Hi; apply at1).
+      rewrite (step_loadglobal f (length pre) st (inj v)); [reflexivity|rewrite Hi; apply at0|cbn [F.need] in Hn; lia| |apply inj_not_gonil].
+      rewrite Hop, Nat2N.id. apply Hglob. exact Ei.
     - (* SNeg *)
       cbn [F.cexp] in *. destruct (F.cexp base a) as [ca ka] eqn:Ea. cbn [fst snd] in *. cbn [F.need] in Hn.
       assert (Hi' : instr = pre ++ fst (F.cexp base a) ++ ([opUnaryNegative] ++ post))
         by (rewrite Ea; cbn [fst]; rewrite Hi, <- app_assoc; reflexivity).
       assert (Hk' : forall i k, nth_error (snd (F.cexp base a)) i = Some k -> nth (base + i) (code_consts c) (KInt 0) = k)
         by (rewrite Ea; exact Hk).
-      destruct (IHa base pre _ st Hi' Hk' ltac:(lia)) as [k Hrun].
+      destruct (IHa base pre _ st Hwf Hi' Hk' ltac:(lia)) as [k Hrun].
       rewrite Ea in Hrun. cbn [fst] in Hrun. unfold outcome_of in Hrun.
       exists (k + 1). intros f. rewrite <- Nat.add_assoc, Hrun.
-      destruct (F.sev a) as [va|x]; [|reflexivity]. cbn [Nat.add].
+      destruct (F.sev rho a) as [va|x]; [|reflexivity]. cbn [Nat.add].
       assert (Hop : nth_error instr (length pre + length ca) = Some 42%N).
       { assert (Hx : instr = (pre ++ ca) ++ opUnaryNegative :: post) by (rewrite Hi, <- !app_assoc; reflexivity).
         rewrite Hx, <- app_length. apply at0. }
@@ -225,10 +252,10 @@ Section VMScalar.
         by (rewrite Ea; cbn [fst]; rewrite Hi, <- app_assoc; reflexivity).
       assert (Hk' : forall i k, nth_error (snd (F.cexp base a)) i = Some k -> nth (base + i) (code_consts c) (KInt 0) = k)
         by (rewrite Ea; exact Hk).
-      destruct (IHa base pre _ st Hi' Hk' ltac:(lia)) as [k Hrun].
+      destruct (IHa base pre _ st Hwf Hi' Hk' ltac:(lia)) as [k Hrun].
       rewrite Ea in Hrun. cbn [fst] in Hrun. unfold outcome_of in Hrun.
       exists (k + 1). intros f. rewrite <- Nat.add_assoc, Hrun.
-      destruct (F.sev a) as [va|x]; [|reflexivity]. cbn [Nat.add].
+      destruct (F.sev rho a) as [va|x]; [|reflexivity]. cbn [Nat.add].
       assert (Hop : nth_error instr (length pre + length ca) = Some 43%N).
       { assert (Hx : instr = (pre ++ ca) ++ opUnaryNot :: post) by (rewrite Hi, <- !app_assoc; reflexivity).
         rewrite Hx, <- app_length. apply at0. }
@@ -237,6 +264,7 @@ Section VMScalar.
       replace (length pre + (length ca + 1)) with (S (length pre + length ca)) by lia.
       reflexivity.
     - (* SBin *)
+      apply andb_true_iff in Hwf. destruct Hwf as [Hwa Hwb].
       cbn [F.cexp] in *. destruct (F.cexp base a) as [ca ka] eqn:Ea.
       destruct (F.cexp (base + length ka) b) as [cb kb] eqn:Eb. cbn [fst snd] in *. cbn [F.need] in Hn.
       destruct (op_code_shape o) as [x [y [Ho Hx]]]. rewrite Ho in *.
@@ -244,18 +272,18 @@ Section VMScalar.
         by (rewrite Ea; cbn [fst]; rewrite Hi, <- !app_assoc; reflexivity).
       assert (Hka : forall i k, nth_error (snd (F.cexp base a)) i = Some k -> nth (base + i) (code_consts c) (KInt 0) = k)
         by (rewrite Ea; cbn [snd]; exact (consts_left ka kb base Hk)).
-      destruct (IHa base pre _ st Hia Hka ltac:(lia)) as [k1 Hr1].
+      destruct (IHa base pre _ st Hwa Hia Hka ltac:(lia)) as [k1 Hr1].
       rewrite Ea in Hr1. cbn [fst] in Hr1. unfold outcome_of in Hr1.
-      destruct (F.sev a) as [va|xa].
+      destruct (F.sev rho a) as [va|xa].
       2:{ exists k1. intros f. rewrite Hr1. reflexivity. }
       assert (Hib : instr = (pre ++ ca) ++ fst (F.cexp (base + length ka) b) ++ ([x; y] ++ post))
         by (rewrite Eb; cbn [fst]; rewrite Hi, <- !app_assoc; reflexivity).
       assert (Hkb : forall i k, nth_error (snd (F.cexp (base + length ka) b)) i = Some k ->
                                 nth (base + length ka + i) (code_consts c) (KInt 0) = k)
         by (rewrite Eb; cbn [snd]; exact (consts_right ka kb base Hk)).
-      destruct (IHb (base + length ka) (pre ++ ca) _ (inj va :: st) Hib Hkb ltac:(cbn [length]; lia)) as [k2 Hr2].
+      destruct (IHb (base + length ka) (pre ++ ca) _ (inj va :: st) Hwb Hib Hkb ltac:(cbn [length]; lia)) as [k2 Hr2].
       rewrite Eb in Hr2. cbn [fst] in Hr2. unfold outcome_of in Hr2. rewrite app_length in Hr2.
-      destruct (F.sev b) as [vb|xb].
+      destruct (F.sev rho b) as [vb|xb].
       2:{ exists (k1 + k2). intros f. rewrite <- Nat.add_assoc, Hr1, Hr2. reflexivity. }
       exists (k1 + (k2 + 1)). intros f. rewrite <- Nat.add_assoc, Hr1, <- Nat.add_assoc, Hr2. cbn [Nat.add].
       assert (Hxy : instr = ((pre ++ ca) ++ cb) ++ x :: y :: post) by (rewrite Hi, <- !app_assoc; reflexivity).
@@ -272,6 +300,7 @@ Section VMScalar.
       + rewrite (step_binop f _ st (inj va) (inj vb) Hop Hroom). rewrite Hy, (binop_inj o va vb _ y Ec Ho).
         destruct (F.sbin o va vb); reflexivity.
     - (* SLand *)
+      apply andb_true_iff in Hwf. destruct Hwf as [Hwa Hwb].
       cbn [F.cexp] in *. destruct (F.cexp base a) as [ca ka] eqn:Ea.
       destruct (F.cexp (base + length ka) b) as [cb kb] eqn:Eb. cbn [fst snd] in *. cbn [F.need] in Hn.
       set (body := cb ++ [opBinaryOp; bAnd; opNop]) in *.
@@ -280,9 +309,9 @@ Section VMScalar.
         by (rewrite Ea; cbn [fst]; rewrite Hi, <- !app_assoc; reflexivity).
       assert (Hka : forall i k, nth_error (snd (F.cexp base a)) i = Some k -> nth (base + i) (code_consts c) (KInt 0) = k)
         by (rewrite Ea; cbn [snd]; exact (consts_left ka kb base Hk)).
-      destruct (IHa base pre _ st Hia Hka ltac:(lia)) as [k1 Hr1].
+      destruct (IHa base pre _ st Hwa Hia Hka ltac:(lia)) as [k1 Hr1].
       rewrite Ea in Hr1. cbn [fst] in Hr1. unfold outcome_of in Hr1.
-      destruct (F.sev a) as [va|xa].
+      destruct (F.sev rho a) as [va|xa].
       2:{ exists k1. intros f. rewrite Hr1. reflexivity. }
       set (P := pre ++ ca).
       assert (HP : length P = length pre + length ca) by (unfold P; apply app_length).
@@ -314,9 +343,9 @@ Section VMScalar.
         assert (Hkb : forall i k, nth_error (snd (F.cexp (base + length ka) b)) i = Some k ->
                                   nth (base + length ka + i) (code_consts c) (KInt 0) = k)
           by (rewrite Eb; cbn [snd]; exact (consts_right ka kb base Hk)).
-        destruct (IHb (base + length ka) Q _ (inj va :: st) Hib Hkb ltac:(cbn [length]; lia)) as [k2 Hr2].
+        destruct (IHb (base + length ka) Q _ (inj va :: st) Hwb Hib Hkb ltac:(cbn [length]; lia)) as [k2 Hr2].
         rewrite Eb in Hr2. cbn [fst] in Hr2. unfold outcome_of in Hr2. rewrite HQ in Hr2.
-        destruct (F.sev b) as [vb|xb].
+        destruct (F.sev rho b) as [vb|xb].
         2:{ exists (k1 + (2 + k2)). intros f. rewrite <- Nat.add_assoc, Hr1, <- HP.
             replace (2 + k2 + f) with (S (S (k2 + f))) by lia. rewrite Hs1, Hr2. reflexivity. }
         exists (k1 + (2 + (k2 + 2))). intros f. rewrite <- Nat.add_assoc, Hr1, <- HP.
@@ -343,6 +372,7 @@ Section VMScalar.
         rewrite Hlen. replace (length pre + (length ca + 4 + length body)) with (length P + 2 + (length body + 2)) by lia.
         reflexivity.
     - (* SLor *)
+      apply andb_true_iff in Hwf. destruct Hwf as [Hwa Hwb].
       cbn [F.cexp] in *. destruct (F.cexp base a) as [ca ka] eqn:Ea.
       destruct (F.cexp (base + length ka) b) as [cb kb] eqn:Eb. cbn [fst snd] in *. cbn [F.need] in Hn.
       set (body := cb ++ [opBinaryOp; bOr; opNop]) in *.
@@ -351,9 +381,9 @@ Section VMScalar.
         by (rewrite Ea; cbn [fst]; rewrite Hi, <- !app_assoc; reflexivity).
       assert (Hka : forall i k, nth_error (snd (F.cexp base a)) i = Some k -> nth (base + i) (code_consts c) (KInt 0) = k)
         by (rewrite Ea; cbn [snd]; exact (consts_left ka kb base Hk)).
-      destruct (IHa base pre _ st Hia Hka ltac:(lia)) as [k1 Hr1].
+      destruct (IHa base pre _ st Hwa Hia Hka ltac:(lia)) as [k1 Hr1].
       rewrite Ea in Hr1. cbn [fst] in Hr1. unfold outcome_of in Hr1.
-      destruct (F.sev a) as [va|xa].
+      destruct (F.sev rho a) as [va|xa].
       2:{ exists k1. intros f. rewrite Hr1. reflexivity. }
       set (P := pre ++ ca).
       assert (HP : length P = length pre + length ca) by (unfold P; apply app_length).
@@ -389,9 +419,9 @@ Section VMScalar.
         assert (Hkb : forall i k, nth_error (snd (F.cexp (base + length ka) b)) i = Some k ->
                                   nth (base + length ka + i) (code_consts c) (KInt 0) = k)
           by (rewrite Eb; cbn [snd]; exact (consts_right ka kb base Hk)).
-        destruct (IHb (base + length ka) Q _ (inj va :: st) Hib Hkb ltac:(cbn [length]; lia)) as [k2 Hr2].
+        destruct (IHb (base + length ka) Q _ (inj va :: st) Hwb Hib Hkb ltac:(cbn [length]; lia)) as [k2 Hr2].
         rewrite Eb in Hr2. cbn [fst] in Hr2. unfold outcome_of in Hr2. rewrite HQ in Hr2.
-        destruct (F.sev b) as [vb|xb].
+        destruct (F.sev rho b) as [vb|xb].
         2:{ exists (k1 + (2 + k2)). intros f. rewrite <- Nat.add_assoc, Hr1, <- HP.
             replace (2 + k2 + f) with (S (S (k2 + f))) by lia. rewrite Hs1, Hr2. reflexivity. }
         exists (k1 + (2 + (k2 + 2))). intros f. rewrite <- Nat.add_assoc, Hr1, <- HP.
@@ -414,6 +444,7 @@ Section VMScalar.
         replace (length pre + (length ca + 4 + (length cb + 3))) with (S (length P + 4 + length cb + 2)) by lia.
         reflexivity.
     - (* STern *)
+      apply andb_true_iff in Hwf. destruct Hwf as [Hwct Hwe]. apply andb_true_iff in Hwct. destruct Hwct as [Hwc Hwt].
       cbn [F.cexp] in *. destruct (F.cexp base cnd) as [cc kc] eqn:Ec.
       destruct (F.cexp (base + length kc) t) as [ct kt] eqn:Et.
       destruct (F.cexp (base + length kc + length kt) el) as [cf kf] eqn:Ef. cbn [fst snd] in *. cbn [F.need] in Hn.
@@ -422,9 +453,9 @@ Section VMScalar.
         by (rewrite Ec; cbn [fst]; rewrite Hi, <- !app_assoc; reflexivity).
       assert (Hkc : forall i k, nth_error (snd (F.cexp base cnd)) i = Some k -> nth (base + i) (code_consts c) (KInt 0) = k)
         by (rewrite Ec; cbn [snd]; exact (consts_left kc (kt ++ kf) base Hk)).
-      destruct (IHc base pre _ st Hic Hkc ltac:(lia)) as [k1 Hr1].
+      destruct (IHc base pre _ st Hwc Hic Hkc ltac:(lia)) as [k1 Hr1].
       rewrite Ec in Hr1. cbn [fst] in Hr1. unfold outcome_of in Hr1.
-      destruct (F.sev cnd) as [vc|xc].
+      destruct (F.sev rho cnd) as [vc|xc].
       2:{ exists k1. intros f. rewrite Hr1. reflexivity. }
       set (P := pre ++ cc).
       assert (HP : length P = length pre + length cc) by (unfold P; apply app_length).
@@ -456,9 +487,9 @@ Section VMScalar.
         assert (Hkt : forall i k, nth_error (snd (F.cexp (base + length kc) t)) i = Some k ->
                                   nth (base + length kc + i) (code_consts c) (KInt 0) = k)
           by (rewrite Et; cbn [snd]; exact (consts_left kt kf (base + length kc) Hkrest)).
-        destruct (IHt (base + length kc) Q _ st Hit Hkt ltac:(lia)) as [k2 Hr2].
+        destruct (IHt (base + length kc) Q _ st Hwt Hit Hkt ltac:(lia)) as [k2 Hr2].
         rewrite Et in Hr2. cbn [fst] in Hr2. unfold outcome_of in Hr2. rewrite HQ in Hr2.
-        destruct (F.sev t) as [vt|xt].
+        destruct (F.sev rho t) as [vt|xt].
         2:{ exists (k1 + (1 + k2)). intros f. rewrite <- Nat.add_assoc, Hr1, <- HP.
             replace (1 + k2 + f) with (S (k2 + f)) by lia. rewrite Hs1, Hr2. reflexivity. }
         exists (k1 + (1 + (k2 + 1))). intros f. rewrite <- Nat.add_assoc, Hr1, <- HP.
@@ -479,7 +510,7 @@ Section VMScalar.
         assert (Hkf : forall i k, nth_error (snd (F.cexp (base + length kc + length kt) el)) i = Some k ->
                                   nth (base + length kc + length kt + i) (code_consts c) (KInt 0) = k)
           by (rewrite Ef; cbn [snd]; exact (consts_right kt kf (base + length kc) Hkrest)).
-        destruct (IHe (base + length kc + length kt) Q _ st Hif Hkf ltac:(lia)) as [k2 Hr2].
+        destruct (IHe (base + length kc + length kt) Q _ st Hwe Hif Hkf ltac:(lia)) as [k2 Hr2].
         rewrite Ef in Hr2. cbn [fst] in Hr2. unfold outcome_of in Hr2. rewrite HQ in Hr2.
         exists (k1 + (1 + k2)). intros f. rewrite <- Nat.add_assoc, Hr1, <- HP.
         replace (1 + k2 + f) with (S (k2 + f)) by lia. rewrite Hs1, Hr2, Hlen.
@@ -488,6 +519,7 @@ Section VMScalar.
   Qed.
   (* the shape of the statement "every expression adds exactly one value" *)
   Corollary scalar_pushes_one : forall e base pre post st,
+    F.wf (length rho) e = true ->
     instr = pre ++ fst (F.cexp base e) ++ post ->
     (forall i k, nth_error (snd (F.cexp base e)) i = Some k -> nth (base + i) (code_consts c) (KInt 0) = k) ->
     below + length st + F.need e <= MAXSTACK ->
@@ -495,9 +527,9 @@ Section VMScalar.
       (exists v, run (k + f) (length pre) st = run f (length pre + length (fst (F.cexp base e))) (v :: st))
       \/ (exists x, run (k + f) (length pre) st = (RErr x s, defers)).
   Proof.
-    intros e base pre post st Hi Hk Hn.
-    destruct (vm_scalar e base pre post st Hi Hk Hn) as [k Hr].
+    intros e base pre post st Hwf Hi Hk Hn.
+    destruct (vm_scalar e base pre post st Hwf Hi Hk Hn) as [k Hr].
     exists k. intros f. specialize (Hr f). unfold outcome_of in Hr.
-    destruct (F.sev e) as [v|x]; [left; exists (inj v)|right; exists (cls x)]; exact Hr.
+    destruct (F.sev rho e) as [v|x]; [left; exists (inj v)|right; exists (cls x)]; exact Hr.
   Qed.
 End VMScalar.
